@@ -122,7 +122,7 @@ type val struct {
 }
 
 var strTable = []string{"", "C:\\temp\\new", "a\\\\b", "\\d+", "x\\", "50\\u0025", "a", "hello", "x-y_z.w~", "ünï書", "0", "true", "null", "a+b", "q=1&r=2", "%41", "sp ace", "\"quoted\"", strings.Repeat("long", 64)}
-var strPathTable = []string{"a", "hello", "x-y_z.w~", "ünï書", "0", "true", "null", "a+b", "a,b;c=d@e", "(x)'!$&*", strings.Repeat("p", 200)}
+var strPathTable = []string{".", "..", "...", ".a", "a..b", "a", "hello", "x-y_z.w~", "ünï書", "0", "true", "null", "a+b", "a,b;c=d@e", "(x)'!$&*", strings.Repeat("p", 200)}
 var i32Table = []int64{1, -1, 7, math.MaxInt32, math.MinInt32, 100, -40}
 var i64Table = []int64{1, -1, math.MaxInt64, math.MinInt64, 1 << 53, -(1 << 53) - 1, 1 << 32}
 var u32Table = []uint64{1, 7, math.MaxUint32, 1 << 31}
@@ -554,7 +554,7 @@ func runTcCase(c TcAbs, seed int64) TcEv {
 	}
 	role := map[string]leaf{}
 	pathPool := append(append([]leaf{}, topLeaves...), nestedLeaves...)
-	isPath := func(l leaf) bool { return pathSafe(l.kind) && l.path[0] != "os" }
+	isPath := func(l leaf) bool { return pathSafe(l.kind) }
 	role["p1"] = take(pathPool, isPath)
 	role["p2"] = take(pathPool, isPath)
 	role["q1"] = take(topLeaves, nil)
@@ -1046,9 +1046,16 @@ func runRespCase(c RespCase, seed int64) RespEv {
 		rule = httpRule("GET", "/resp/{s}")
 		foreign = true
 	}
+	if c.Kind == "upecho" {
+		// the request body is a raw upload into an HttpBody field; the handler answers with an ordinary message that
+		// carries the uploaded bytes (the very slice it was given)
+		rule = httpRule("POST", "/resp/{s}")
+		rule.Body = "hb"
+		foreign = false
+	}
 	rule.ResponseBody = c.RespBody
 	out := ""
-	if c.Kind == "httpbody" {
+	if c.Kind == "httpbody" && c.RespBody != "hb" {
 		out = ".google.api.HttpBody"
 	}
 	// every other case with a selector: the annotation declares the binding without response_body and a service-config
@@ -1086,6 +1093,19 @@ func runRespCase(c RespCase, seed int64) RespEv {
 		rawData = []byte("raw \x00\xff bytes " + strings.Repeat("z", r.Intn(300)))
 		ev.WantCT = []string{"image/png", "text/plain; charset=utf-8", "application/x-thing", "application/json", ""}[r.pick(5)]
 		reply = &httpbody.HttpBody{ContentType: ev.WantCT, Data: rawData}
+		if c.RespBody == "hb" { // the raw body is a field of a wrapper reply, selected by response_body
+			rp := repMsg(c.ID, 1, 0)
+			hb := dynamicpb.NewMessage(repDesc().Fields().ByName("hb").Message())
+			hb.Set(hb.Descriptor().Fields().ByName("content_type"), protoreflect.ValueOfString(ev.WantCT))
+			hb.Set(hb.Descriptor().Fields().ByName("data"), protoreflect.ValueOfBytes(rawData))
+			rp.Set(repDesc().Fields().ByName("hb"), protoreflect.ValueOfMessage(hb))
+			reply = rp
+		}
+	case "upecho":
+		rawData = []byte("{\"upload\": \"" + strings.Repeat("u", 1+r.Intn(400)) + "\"}")
+		rp := repMsg(c.ID, 1, 0)
+		rp.Set(repDesc().Fields().ByName("pad"), protoreflect.ValueOfBytes(append([]byte{}, rawData...)))
+		wantSel = rp
 	default:
 		rp := repMsg(c.ID, 1, 0)
 		if c.Kind != "empty" {
@@ -1123,6 +1143,12 @@ func runRespCase(c RespCase, seed int64) RespEv {
 		case "send":
 			grpc.SendHeader(ctx, metadata.Pairs("x-h", "1"))
 		}
+		if c.Kind == "upecho" {
+			rp := repMsg(c.ID, 1, 0)
+			hbv := req.Get(req.Descriptor().Fields().ByName("hb")).Message()
+			rp.Set(repDesc().Fields().ByName("pad"), hbv.Get(hbv.Descriptor().Fields().ByName("data"))) // not copied
+			return rp, nil
+		}
 		return reply, nil
 	}
 	if err := larking.VerifRegisterService(mux, MakeServiceDesc(sds[0], un, nil), struct{}{}); err != nil {
@@ -1132,6 +1158,9 @@ func runRespCase(c RespCase, seed int64) RespEv {
 	reqBody := []byte("{}")
 	if c.ReqCT == "application/protobuf" || c.ReqCT == "application/octet-stream" {
 		reqBody = []byte{}
+	}
+	if c.Kind == "upecho" {
+		reqBody = rawData
 	}
 	req := httptest.NewRequest("POST", "http://verif.test/resp/x", bytes.NewReader(reqBody))
 	req.ContentLength = int64(len(reqBody))
